@@ -323,14 +323,14 @@ def cases_for(tier):
 
 def _core2(c):
     """thorough: cases explored completely at preemption bound 2.  Sizes measured (DESIGN 9.3): a fresh login is
-    ~0.1M executions per case, a cut-off history ~1M; all three variants for the fresh logins, XX for the histories."""
+    ~0.1M executions per case, a cut-off history ~1M; all three variants for the fresh logins, XX cut off before the server hello for the histories."""
     if c.get("edge") or c.get("passive") or c.get("cuts"):
         return False
     if c.get("history", "fresh") == "fresh":
         if c.get("corrupt"):
             return True
         return (c.get("burst"), c.get("nsend")) in ((0, 0), (0, 1), (1, 0))
-    return c["variant"] == "XX" and c["history"] in ("close-before-hello", "close-after-hello")
+    return c["variant"] == "XX" and c["history"] == "close-before-hello"
 
 
 def run(ctx):
